@@ -182,6 +182,19 @@ func (c *Ctx) VerifyFunc(pkgPath, key string) (rep *FuncReport) {
 		g := fr.evalBool(rq.Expr, st, st, env)
 		c.addFact(g)
 	}
+	for _, ga := range c.S.Globals {
+		// a global assumption is brought in by name: `attr uses label[,label]`
+		used := false
+		for _, u := range strings.Split(con.Attrs["uses"], ",") {
+			if strings.TrimSpace(u) == ga.Clause.Label && u != "" {
+				used = true
+			}
+		}
+		if ga.Pkg == pkgPath && used {
+			c.addFact(fr.evalBool(ga.Clause.Expr, st, st, env))
+			c.AssumedLib["assume-global["+ga.Clause.Label+"] "+ga.Clause.Src] = true
+		}
+	}
 	c.cover("requires", st)
 	// known-finding witnesses for this function
 	c.evalWitnesses(fr, name, st, env)
